@@ -87,6 +87,8 @@ TEMPLATES: dict[str, str] = {
     "macro3": "{% if formal %}{% macro greet name, greeting: 'Good day' %}{{ greeting }}, {{ name }}!{% endmacro %}{% else %}"
               "{% macro greet name, greeting: 'Hi' %}{{ greeting }}, {{ name }}!{% endmacro %}{% endif %}{% call greet v %}"
               "{% for i in xs %}{% call greet i %}{% endfor %}",
+    "babel": "{{ 1.1 | decimal }}|{{ 1234.5 | currency }}|{{ 2.5 | money }}|{{ 3.25 | unit: 'length-meter' }}|{{ 7 | decimal }}"
+             "|{{ 1234567890123456 | plus: 0.5 }}|{{ 3.141592653589793 | times: 2 }}|{{ xs | sum }}|{{ 1700000000 | datetime }}",
     "macrorender": "{% macro card t %}<{% render 'rp', x: t %}>{% endmacro %}{% call card v %}{% call card 'z' %}",
     "renderblock": "{% render 'blocky', v: v %}|{% render 'child2', v: v %}",
     "blocky": "{% block b %}[{{ v }}]{% endblock %}",
@@ -105,7 +107,7 @@ TEMPLATES: dict[str, str] = {
     "undefined": "{{ nosuch }}{{ v | default: 'd' }}{% if nosuch %}t{% else %}f{% endif %}{{ nosuch.deeper | size }}",
     "ifchanged": "{% for i in xs %}{% if forloop.first %}F{% endif %}{{ forloop.index }}{% endfor %}{% liquid\nassign z = v\necho z %}",
 }
-ROOTS = ["counters", "cycle", "offset", "capture", "macro", "macro2", "macro3", "macrorender", "renderblock", "child", "child2", "now", "translate",
+ROOTS = ["counters", "cycle", "offset", "capture", "macro", "macro2", "macro3", "macrorender", "renderblock", "babel", "child", "child2", "now", "translate",
          "include", "render", "custom", "drop", "with", "undefined", "ifchanged"]
 
 
@@ -190,6 +192,11 @@ class World:
     def configure(self, e: str, act: tuple) -> None:
         self.cfg[e].append(act)
         self._apply(self.envs[e], act)
+        if act[0] == "global":
+            # environment globals are merged into a template when it is loaded
+            # (Environment.make_globals): templates held from before are fetched again
+            for k in [k for k in self.tpls if k[0] == e]:
+                del self.tpls[k]
 
     def edit(self, name: str, src: str) -> None:
         """The template's source changes (in every loader); templates held by callers that
